@@ -108,8 +108,11 @@ func newWorld(c *harness.Ctx, sim *kern.Sim, nslots int) *World {
 		filters = append(filters, &simFilter{w: w, idx: 0})
 	} else if cfg["filters"] != "" {
 		w.nfilt = c.Choose(4, "nfilters")
+		if w.nfilt > 0 && c.Choose(4, "filter-fails") == 3 {
+			w.filtFail = c.Choose(w.nfilt, "which-filter-fails")
+		}
 		for i := 0; i < w.nfilt; i++ {
-			filters = append(filters, &simFilter{w: w, idx: i})
+			filters = append(filters, &simFilter{w: w, idx: i, fail: i == w.filtFail})
 		}
 	}
 	// mounting
@@ -141,6 +144,25 @@ func newWorld(c *harness.Ctx, sim *kern.Sim, nslots int) *World {
 	default:
 		handler = srv.Handler()
 	}
+	w.srv = srv
+	if cfg["late"] != "" {
+		// a resource that is registered only after the handler was obtained
+		for _, rd := range Resources {
+			taken := false
+			for _, p := range pick {
+				if strings.Split(p.Path, "/")[0] == strings.Split(rd.Path, "/")[0] {
+					taken = true
+				}
+			}
+			if !taken {
+				w.late = rd
+				m := reflect.ValueOf(rd.NewMock())
+				w.mocks[rd] = m
+				w.installMocks(rd, m)
+				break
+			}
+		}
+	}
 	w.net = NewNet(c, sim, handler, nslots)
 	// resolver base
 	bases := []string{"http://h"}
@@ -157,7 +179,11 @@ func newWorld(c *harness.Ctx, sim *kern.Sim, nslots int) *World {
 	}
 	w.base = base
 	w.rc = &restli.Client{Client: &http.Client{Transport: w.net}, StrictResponseDeserialization: c.Bool("strict")}
-	for _, rd := range pick {
+	all := pick
+	if w.late != nil {
+		all = append(append([]*ResDesc(nil), pick...), w.late)
+	}
+	for _, rd := range all {
 		b := strings.Replace(base, "%ROOT%", strings.Split(rd.Path, "/")[0], 1)
 		u, _ := url.Parse(b)
 		rc := &restli.Client{Client: w.rc.Client, StrictResponseDeserialization: w.rc.StrictResponseDeserialization, HostnameResolver: &resolver{base: u}}
@@ -195,10 +221,33 @@ func rpc(c *harness.Ctx) {
 				if c.Cfg["outcomes"] == "errors" {
 					w.drawOutcome(call, sharedErrs)
 				}
+				if c.Cfg["route"] == "damage" && c.Choose(2, "damage?") == 1 {
+					damagePath(c, w, call)
+				}
 				plan[t] = append(plan[t], call)
 				total++
 			}
 		}
+	}
+	var lateCalls []*Call
+	if w.late != nil {
+		for i := 0; i < 1+c.Choose(2, "nlatecalls"); i++ {
+			if call := w.planCall(w.late, nil); call != nil {
+				lateCalls = append(lateCalls, call)
+				total++
+			}
+		}
+		sim.Go("late-register", func() {
+			kern.Yield("before-late-register")
+			w.late.Register(w.srv, w.mocks[w.late].Interface())
+			c.Probe("late-registration-ran")
+		})
+		sim.Go("late-caller", func() {
+			for _, call := range lateCalls {
+				kern.Yield("before-call")
+				w.run(call)
+			}
+		})
 	}
 	// the server pool is spawned before anything runs
 	w.net.grow(sim, total*2+2)
@@ -239,6 +288,17 @@ func rpc(c *harness.Ctx) {
 			}
 		}
 	}
+	for _, call := range lateCalls {
+		// resources registered after Handler() was taken do not affect that handler
+		if len(call.Inv) > 0 {
+			c.Fail("C05", "late-registration-visible", "late-registration-visible", "call #%d %s reached a resource that was registered after the handler had been obtained [%s]", call.ID, call.Desc, world)
+			return
+		}
+		if call.Done && len(call.Exchanges) > 0 && call.Exchanges[0].Status != 404 && !call.MustReject {
+			c.Fail("C05", "late-registration-status", fmt.Sprintf("late-registration-status:%d", call.Exchanges[0].Status), "call #%d %s to a resource unknown to the handler was answered %d, expected 404 [%s]", call.ID, call.Desc, call.Exchanges[0].Status, world)
+			return
+		}
+	}
 	if len(w.strays) > 0 {
 		c.Fail("C05", "stray-invocation", "stray-invocation", "resource code ran for a request that carries no call id: %s", w.strays[0].Field)
 	}
@@ -265,6 +325,27 @@ func (n *Net) grow(sim *kern.Sim, k int) {
 		s.task = sim.GoIdle(fmt.Sprintf("server%d", len(n.slots)), func() { n.serve(s) })
 		n.slots = append(n.slots, s)
 	}
+}
+
+func hasOnlyStrip(call *Call) bool {
+	n := 0
+	for _, e := range call.Exchanges {
+		for _, f := range e.Faults {
+			if f != "strip-method" {
+				return false
+			}
+			n++
+		}
+	}
+	return n > 0
+}
+
+// stripExpect400: the method header was dropped from a POST to a collection-like resource.
+func stripExpect400(call *Call, w *World) bool {
+	if !hasOnlyStrip(call) || call.Res.Kind != "collection" || len(call.Exchanges) == 0 {
+		return false
+	}
+	return strings.HasPrefix(string(call.Exchanges[0].ReqBytes), "POST ")
 }
 
 func anyFault(call *Call) bool {
@@ -294,6 +375,17 @@ func checkCall(c *harness.Ctx, w *World, call *Call, world string) {
 			return
 		}
 	}
+	if checkDamagedPath(c, w, call, where) {
+		return
+	}
+	if stripExpect400(call, w) {
+		c.Probe("header-stripped-post")
+		e := call.Exchanges[0]
+		if len(call.Inv) > 0 || e.Status != 400 {
+			c.Fail("C05", "post-without-header", fmt.Sprintf("post-without-header:%s:%d", methodClass(call, w), e.Status), "%s: a POST to a collection without X-RestLi-Method must be answered 400 without touching resource code; status %d, invocations %d", where, e.Status, len(call.Inv))
+		}
+		return
+	}
 	if call.MustReject {
 		c.Probe("partial-update-touching-excluded-field")
 		if call.Err == nil || len(call.Exchanges) > 0 {
@@ -322,6 +414,27 @@ func checkCall(c *harness.Ctx, w *World, call *Call, world string) {
 		return
 	}
 	faulty := anyFault(call)
+	if hasOnlyStrip(call) {
+		// an intermediary dropped X-RestLi-Method from a GET/PUT/DELETE (or from a request to a simple
+		// resource / action set): the very method the client named must be inferred
+		faulty = false
+		c.Probe("header-stripped-inferred")
+	}
+	if !faulty && call.Out.Kind != "panic" {
+		routed := right == 1 || (w.filtFail >= 0 && len(call.Exchanges) > 0 && len(call.Filt) > 0)
+		checkFilters(c, w, call, where, routed || right == 1, right == 1 && call.Out.Kind == "value" || call.Out.Kind == "nilentity" && false)
+		if c.Failed() {
+			return
+		}
+		if w.filtFail >= 0 && w.nfilt > 0 && !w.viewFilter {
+			if right != 0 {
+				c.Fail("C05", "filter-failure-ignored", "filter-failure-ignored", "%s: filter %d refused the request but the resource ran", where, w.filtFail)
+			} else if call.Err == nil {
+				c.Fail("C05", "filter-failure-ignored", "filter-failure-success", "%s: filter %d refused the request but the client call succeeded", where, w.filtFail)
+			}
+			return
+		}
+	}
 	if faulty {
 		c.Probe("call-under-fault")
 		// under lossy faults: an error, or exactly the model's value — never a wrong or partial one
